@@ -7,7 +7,8 @@ CONSTANTS
   Big = TRUE
   MaxStack = 3
   ResetKeepsMarkers = FALSE
-  IterMayNotPush = FALSE
+  IterMayNotPush = TRUE
+  PopStackByCount = FALSE
   MoveCmds = {"Move", "Zoom"}
   ReadCmds = {"Read", "Toggle"}
 VIEW View
